@@ -10,6 +10,7 @@ package main
 // Before each case a marker line "VERIFCASE <n>" is printed so that a hit can be attributed.
 
 import (
+	"bytes"
 	"errors"
 	"fmt"
 	"net"
@@ -597,6 +598,48 @@ func TestVerifC17FdExhaust(t *testing.T) {
 			cl.Close()
 			ln.Close()
 		}
+	}
+	// connections that reached the station's listener without a NAT redirect (a direct probe, an evicted conntrack entry):
+	// getOriginalDst has nothing to report.  The peer dials from 127.0.0.2, sends a little and resets; whatever the
+	// station takes for the connection's destination, that peer address must not show up in the log.
+	for rep := 0; rep < kit.Tier(4, 40); rep++ {
+		ln, err := net.Listen("tcp", "127.0.0.1:0")
+		if err != nil {
+			continue
+		}
+		n++
+		sp := c17Spell(n)
+		fmt.Fprintf(os.Stdout, "VERIFCASE %d\n", n)
+		rec.Ev("case", map[string]interface{}{"n": n, "desc": fmt.Sprintf("#%d connection without a redirect entry, peer 127.0.0.2 resets, LOG_CLIENT_IP=%q", n, sp)})
+		d := net.Dialer{LocalAddr: &net.TCPAddr{IP: net.IPv4(127, 0, 0, 2)}, Timeout: 10 * time.Second}
+		cl, err := d.Dial("tcp", ln.Addr().String())
+		if err != nil {
+			rec.Note("cannot dial from 127.0.0.2: " + err.Error())
+			ln.Close()
+			continue
+		}
+		ac, err := ln.Accept()
+		if err != nil {
+			cl.Close()
+			ln.Close()
+			continue
+		}
+		fmt.Fprintf(os.Stdout, "VERIFNEEDLE %s\n", "127.0.0.2")
+		done := make(chan struct{})
+		go func() { s.cm.handleNewConn(s.rm, ac.(*net.TCPConn)); close(done) }()
+		cl.Write(bytes.Repeat([]byte{0x5a}, 100+rep))
+		time.Sleep(30 * time.Millisecond)
+		cl.(*net.TCPConn).SetLinger(0)
+		cl.Close()
+		select {
+		case <-done:
+		case <-time.After(40 * time.Second):
+			rec.Inconclusive("handleNewConn did not return 40 s after the peer's reset", n)
+		}
+		ln.Close()
+		rec.Count("evaluations", 1)
+		rec.Count("connections_without_redirect_entry", 1)
+		rec.Distinct("nontrivial", "no-redirect", rep%4, sp)
 	}
 	fmt.Fprintf(os.Stdout, "VERIFCASE %d\n", 9999999)
 }
